@@ -167,7 +167,7 @@ def build_library(cfg):
 
 def harness_flags(cfg):
     c = CONFIGS[cfg]
-    fl = ["-std=gnu++17"] + list(c["opt"]) + list(c["san"]) + (["-fno-sanitize=enum"] if c["san"] and "thread" not in c["san"][0] else []) + [
+    fl = ["-std=gnu++17"] + list(c["opt"]) + list(c["san"]) + (["-fno-sanitize=enum"] if c["san"] and "thread" not in c["san"][0] else []) + (["-fsanitize=fuzzer-no-link"] if c["fuzz"] else []) + [
         "-I" + HARNESS, "-I" + os.path.join(REPO, "SRC"), "-idirafter", os.path.join(HARNESS, "fallback"), "-Wall", "-Wno-unused-function", "-Wno-unused-variable",
         "-Wno-unused-but-set-variable", "-Wno-sign-compare"]
     if c["i64"]:
